@@ -177,6 +177,7 @@ static const int cfg2[4][2][2] = { { { 1, 0 }, { 1, 0 } }, { { 1, 0 }, { 0, 1 } 
 static const int cfg3[4][3][2] = { { { 1, 0 }, { 0, 1 }, { 0, 1 } }, { { 1, 0 }, { 1, 0 }, { 0, 1 } }, { { 1, 1 }, { 0, 1 }, { 0, 1 } }, { { 1, 0 }, { 1, 1 }, { 0, 1 } } };
 static const int cfg4[2][4][2] = { { { 1, 0 }, { 0, 1 }, { 0, 1 }, { 0, 1 } }, { { 1, 0 }, { 1, 0 }, { 0, 1 }, { 0, 1 } } };
 static const int ops4[4] = { P_RESET_OWN, P_SHARE, P_LOCK, P_WEAKRESET };
+static long skipped_heavy;
 static int LA, LB, L3;                 /* program length bounds: 2-thread scenarios (thread A, thread B), 3-thread scenarios */
 static long n2, n3, n3b, n4, ntotal; static int thorough;
 
@@ -264,6 +265,15 @@ int main(int argc, char **argv)
         sx_stats st; int rc;
         memset(&st, 0, sizeof st);
         load_scenario(id); scn.nthreads = S.nthreads;
+        /* alloc(own) is by far the longest operation (two allocations and their initialisation are all scheduling points).  It is explored in every
+         * scenario of the quick family (2 threads with programs up to 2 x 2, 3 threads with one operation each); the additional families of the thorough tier
+         * (a program of length 3, 3 threads with a program of length 2, 4 threads) are explored over the six other operations */
+        if (thorough) {
+            int t2, k2, heavy = 0, has = 0, maxlen = 0;
+            for (t2 = 0; t2 < S.nthreads; t2++) { if (S.plen[t2] > maxlen) maxlen = S.plen[t2]; for (k2 = 0; k2 < S.plen[t2]; k2++) if (S.prog[t2][k2] == P_REALLOC) has = 1; }
+            if (has && (maxlen >= 3 || (S.nthreads == 3 && maxlen >= 2) || S.nthreads >= 4)) heavy = 1;
+            if (heavy) { skipped_heavy++; continue; }
+        }
         { char pf[32]; snprintf(pf, sizeof pf, "%ld:", id); sx_progress_prefix(pf); }
         rc = sx_explore(&scn, &st, &v, deadline > 0 ? deadline - (now() - t0) : 0, -1);
         scen++; tot_states += st.states; tot_trans += st.transitions; tot_exec += st.executions; tot_complete += st.complete_executions; tot_pruned += st.pruned;
